@@ -186,7 +186,15 @@ fn assignment_case(job: &Job) {
 /// centroid sets are drawn from a small candidate list derived from the data.
 fn assignment_structured_case(job: &Job) {
     let (n, dim, k, variant) = (job.u("n"), job.u("dim"), job.u("k"), job.u("variant"));
-    let pts: Vec<Vec<f64>> = if variant == 4 {
+    let pts: Vec<Vec<f64>> = if variant == 6 {
+        // a column whose values are ADJACENT doubles at a large magnitude (5e11 and 5e11 + 1 ulp)
+        (0..n).map(|i| (0..dim).map(|c| match c { 0 => 5e11 + if i % 2 == 1 { 6.103515625e-5 } else { 0.0 }, _ => ((i * 5 + c) % 3) as f64 }).collect()).collect()
+    } else if variant == 5 {
+        // mixed-scale columns: one column sits at 5e11 (constant), the next varies in
+        // steps of 2^-16, further columns are small integers — any rule that takes a cell's resolution
+        // from the largest coordinate of ANY column would lump distinct rows together
+        (0..n).map(|i| (0..dim).map(|c| match c { 0 => 5e11, 1 => ((i * 7) % n) as f64 * 1.52587890625e-5, _ => ((i * 5 + c) % 3) as f64 }).collect()).collect()
+    } else if variant == 4 {
         // a g x g grid plus an off-corner group
         let g = (n as f64).sqrt() as usize;
         let mut v: Vec<Vec<f64>> = (0..g * g).map(|i| (0..dim).map(|c| if c == 0 { (i % g) as f64 } else if c == 1 { (i / g) as f64 } else { ((i * 7) % 3) as f64 }).collect()).collect();
@@ -223,7 +231,10 @@ fn assignment_structured_case(job: &Job) {
         let best = ds.iter().cloned().fold(f64::INFINITY, f64::min);
         want_dist += best;
         let m = r.membership[i];
-        if m >= k || ds[m] > best + 1e-12 * (1.0 + best) {
+        // "nearest" up to the rounding of one coordinate at the magnitude of the data: a distance cannot
+        // be resolved more finely than a few units in the last place of the largest coordinate
+        let ulp_slack = 8.0 * f64::EPSILON * pts.iter().flatten().fold(0.0f64, |a, x| a.max(x.abs()));
+        if m >= k || (ds[m] > best + 1e-12 * (1.0 + best) && ds[m].sqrt() > best.sqrt() + ulp_slack) {
             mc::violation("bbd.clustering:structured:not-nearest", format!("{}: row {} = {:?} attached to centroid {} at d²={} but a centroid at d²={} is nearer", ctx, i, pts[i], m, if m < k { ds[m] } else { f64::NAN }, best));
             return;
         }
@@ -548,12 +559,24 @@ impl Harness for C12 {
         for &n in if t { &[36usize, 57, 100, 200][..] } else { &[36usize, 57][..] } {
             for dim in [1usize, 2, 3] {
                 for k in [2usize, 3] {
-                    for variant in 0..5usize {
+                    for variant in 0..6usize {
+                        if variant == 5 && dim == 1 {
+                            continue;
+                        }
                         jobs.push(Job::new(format!("assign-structured-v{}-n{}-d{}-k{}", variant, n, dim, k), json!({"kind": "assign-structured", "n": n, "dim": dim, "k": k, "variant": variant})));
                         for &off in &OFFSETS {
                             jobs.push(Job::new(format!("assign-structured-v{}-n{}-d{}-k{}-off{}", variant, n, dim, k, off), json!({"kind": "assign-structured", "n": n, "dim": dim, "k": k, "variant": variant, "off": off})));
                         }
                     }
+                }
+            }
+        }
+        // (a'') adjacent large doubles in one column: the tree construction used to run off the
+        // front of its index there (repaired)
+        for n in [8usize, 36] {
+            for dim in [1usize, 2, 3] {
+                for k in [2usize, 3] {
+                    jobs.push(Job::new(format!("assign-structured-v6-n{}-d{}-k{}", n, dim, k), json!({"kind": "assign-structured", "n": n, "dim": dim, "k": k, "variant": 6})));
                 }
             }
         }
@@ -593,7 +616,7 @@ impl Harness for C12 {
             bounds: json!({
                 "builders": mc_sc::builders::BOUNDS,
                 "entry_paths": mc_sc::entry::BOUNDS,
-                "small_scale": "1-D / 2-D all-schedule fits (n<=4) and the structured fits (n in {12,40}, dim<=3, k<=3) with every coordinate multiplied by 2^-13 and 2^-20 (tolerances scaled with the data)", "off_centre": "assignment lattices (n<=3 1-D, n<=2 2-D; one more in thorough), the structured assignment families, 1-D/2-D all-schedule fits (n<=4) and the structured fits (dim<=3, k<=3) repeated with every coordinate translated by 2^27 and by 1.7e9 (exact in f64): same oracle, decisions are translation invariant", "assignment_step_structured": "5 structured families (incl. grid + off-corner group), n in {36,57} (up to 200 thorough), 1..3 dimensions, every centroid multiset of size 2,3 from 10 data-derived candidates", "assignment_step": "every point sequence n<=4 (5 thorough) on {0..3} and n<=3 (4) on the 3x3 lattice x every centroid multiset of size 2,3 from the half-step grid plus far points",
+                "small_scale": "1-D / 2-D all-schedule fits (n<=4) and the structured fits (n in {12,40}, dim<=3, k<=3) with every coordinate multiplied by 2^-13 and 2^-20 (tolerances scaled with the data)", "off_centre": "assignment lattices (n<=3 1-D, n<=2 2-D; one more in thorough), the structured assignment families, 1-D/2-D all-schedule fits (n<=4) and the structured fits (dim<=3, k<=3) repeated with every coordinate translated by 2^27 and by 1.7e9 (exact in f64): same oracle, decisions are translation invariant", "assignment_step_structured": "6 structured families (incl. grid + off-corner group, mixed-scale columns: 5e11 next to steps of 2^-16, and a column of adjacent doubles 5e11 / 5e11+1ulp), n in {36,57} (up to 200 thorough), 1..3 dimensions, every centroid multiset of size 2,3 from 10 data-derived candidates", "assignment_step": "every point sequence n<=4 (5 thorough) on {0..3} and n<=3 (4) on the 3x3 lattice x every centroid multiset of size 2,3 from the half-step grid plus far points",
                 "fit": format!("every such sequence (quick tier, 2-D with k=3: those starting at the lattice origin) with >=k distinct rows x k in {{2,3}} x max_iter in {{1,2,100}} x every first-index draw x every cutoff draw on a {}-point grid (covers every index of positive weight); edge answers u=0 and u=1-2^-53 on all instances in the thorough tier, on two small families in the quick tier", GRID),
                 "structured": "4 families, n up to 40 (300 thorough), 1..6 dimensions, k up to 8, seeding schedules with at most 1 (2) non-default answers",
             }),
